@@ -227,6 +227,8 @@ def enc_progs(kind, progs):
         return "[%s]" % ";".join(enc_zl([cyc(c) for c in p]) for p in progs)
     if kind == "file":
         return "[%s]" % ";".join("(%d%%nat, %s)" % (p, enc_zl([fcyc(c) for c in prog])) for p, prog in progs)
+    if kind == "cache":      # cycle = key number, + 1000 when open() of the lock file fails for that acquisition
+        return "[%s]" % ";".join(enc_natl([c if isinstance(c, int) else c[0] + 1000 * c[1] for c in p]) for p in progs)
     return "[%s]" % ";".join(enc_natl(p) for p in progs)
 
 
@@ -273,7 +275,7 @@ def work_list(ctx):
     W = []
     # cap: schedules enumerated per program set (all of them monitored); keep: how many of them are also compared
     # with the Coq model (the first half of `keep`, then every 29th); extra: random schedules added when capped
-    cap, keep, extra = ctx.n(700, 40000), ctx.n(700, 2500), ctx.n(150, 1500)
+    cap, keep, extra = ctx.n(500, 40000), ctx.n(500, 2500), ctx.n(100, 1500)
     E = lambda kind, progs: W.append(("enum", kind, progs, (cap, keep, extra, ctx.rng.randrange(10 ** 9))))  # noqa: E731
     # ---- condition-variable lock
     for progs in multisets(cond_thread_progs(2), 2):                     # all 2 threads x 2 cycles
@@ -286,7 +288,9 @@ def work_list(ctx):
     for procs in ([0, 0], [0, 1]):
         for progs in multisets(cond_thread_progs(1), 2):                 # all 2 threads x 1 cycle
             E("file", [(procs[i], p) for i, p in enumerate(progs)])
-        for progs in multisets(cond_thread_progs(2), 2):                 # all 2 threads x 2 cycles (capped in quick)
+        for k, progs in enumerate(multisets(cond_thread_progs(2), 2)):   # all 2 threads x 2 cycles (capped in quick)
+            if ctx.quick and procs == [0, 1] and k % 2:
+                continue                                                 # quick: every other set for two processes
             E("file", [(procs[i], p) for i, p in enumerate(progs)])
     # acquisition FAILURES: flock raises OSError for the marked cycle (compared with the model), then a follow-up history
     for procs in ([0, 0], [0, 1]):
@@ -320,6 +324,10 @@ def work_list(ctx):
     kcap = ctx.n(2000, 40000)
     for progs in ([[5], [5], [5]], [[5], [7]], [[5], [5]], [[5], [5], [7]], [[5, 5], [5]]):
         W.append(("enum", "cache", progs, (kcap if progs == [[5], [5], [5]] else cap, keep, extra, ctx.rng.randrange(10 ** 9))))
+    # open() of the cache lock file fails for the marked acquisition (EMFILE): the requester must be refused
+    for progs in ([[5], [[5, 1]]], [[5], [[5, 1], 5], [5]], [[5], [[7, 1], 5]]):
+        W.append(("enum", "cache", progs, (cap, keep, extra, ctx.rng.randrange(10 ** 9))))
+    W.append(("rand", "cache", ("r", [[5], [[5, 1], 5], [5]]), (ctx.n(100, 2000), ctx.rng.randrange(10 ** 9))))
     for progs in (("r", [[5], [5], [5]]), ("r", [[5], [5], [7]]), ("r", [[5], [9]])):       # storage lock held in mode r
         W.append(("rand", "cache", progs, (ctx.n(150, 3000), ctx.rng.randrange(10 ** 9))))
     # ---- the item-cache section of the file-lock back-end with stale entries: _clean_item_cache runs inside (monitor only)
